@@ -48,6 +48,15 @@ pub fn run(tier: Tier) -> Run {
     let a = xs::enumerate(&alpha, d_enum, &f);
     // a small alphabet around forward-declared pointers, deeper
     let fw = xs::enumerate(&[BOp::Id, BOp::ForwardPointerFresh, BOp::StructOfForward, BOp::PointerToLast, BOp::TypePointer(None, 0), BOp::ConstantBit32, BOp::Continue, BOp::TypeVoid], tier.pick(5, 6), &f);
+    // declarations placed by the caller anywhere in the section, instructions taken back, builders continued: requests and
+    // fresh ids afterwards
+    let ins = xs::enumerate(
+        &[BOp::Id, BOp::InsertTypeGlobal(0), BOp::InsertTypeGlobal(1), BOp::InsertTypeGlobal(2), BOp::TypeVoid, BOp::TypePointer(None, 0), BOp::TypePointer(None, 1), BOp::TypeCall(pick("type_int"), None, 0), BOp::TypeCall(pick("type_int"), None, 1), BOp::BeginFunction, BOp::BeginBlock, BOp::IAdd, BOp::PopInstruction, BOp::Continue],
+        tier.pick(5, 6),
+        &f,
+    );
+    run.add_all(ins.viols.clone());
+    run.merge_outcomes(&ins.outcomes);
     run.add_all(fw.viols.clone());
     run.merge_outcomes(&fw.outcomes);
     let b = xs::closure(&alpha, d_clos, tier.pick(300_000, 6_000_000), &f);
